@@ -4,6 +4,7 @@ import hashlib
 import numpy as np
 
 from props import c01, families
+from vlib import cachetap
 
 
 def digest(a):
@@ -307,7 +308,7 @@ def run_inputs_case(c):
     import random
     random.seed(c["seed"])
     rec = dict(c)
-    rec.update({"q": c["variant"], "skip": 0, "labels": [], "rep": [[0], [0]], "qexc": "",
+    rec.update({"q": c["variant"], "skip": 0, "labels": [], "rep": [[0], [0]], "qexc": "", "stale": [], "hits": 0,
                 "base": {}, "basex": {}, "after": {}, "afterx": {}})
     _VAR[0] = c["variant"]
     try:
@@ -394,6 +395,9 @@ def run_case(c):
     np.random.seed(c["seed"])
     import random
     random.seed(c["seed"])
+    if not cachetap.STATE["installed"]:
+        cachetap.install()
+    cachetap.drain()
     t = TARGETS[c["target"]]
     twin, tin = t.build()
     tin.pop("__pre__", None)
@@ -410,6 +414,7 @@ def run_case(c):
         rec["base"], rec["basex"], rec["after"], rec["afterx"] = {}, {}, {}, {}
         rec["rep"], rec["inputs_before"], rec["inputs_after"] = [[0], [0]], before, before
         rec["qexc"] = ""
+        rec["stale"], rec["hits"] = [], 0
         return rec
     rec["skip"] = 0
     if c["mode"] == "warm":
@@ -428,6 +433,8 @@ def run_case(c):
     rec["qexc"] = qexc
     rec["inputs_before"] = before
     rec["inputs_after"] = {k: digest(v) for k, v in inputs.items()}
+    lk = cachetap.drain()
+    rec["stale"], rec["hits"] = lk["stale"], lk["hits"]
     return rec
 
 
